@@ -187,6 +187,9 @@ harnesses! {
         (ops_data::d_gossip_upd, 7),
         (ops_data::d_gossip_upd_k2, 7),
         (ops_data::d_feed_upd, 7),
+        (ops_data::d_gossip_upd_never, 7),
+        (ops_data::d_ping_upd_never, 7),
+        (ops_data::d_feed_upd_tight, 7),
         (ops_data::d_ack_upd, 7),
         (ops_data::d_gossip_custom, 7),
         (ops_data::d_broadcast_custom, 7),
